@@ -19,6 +19,13 @@ static void dd_callback(char const *function, int line) {
 }
 #endif
 
+/* installed once by main(), before any thread exists (the callback only touches the calling thread's context) */
+void vh_hooks_install(void) {
+#ifdef M4RI_VERIF
+  m4ri_verif_dd = dd_callback;
+#endif
+}
+
 vh_ctx_t *vh_ctx_new(const char *path, uint64_t seed, int tid) {
   vh_ctx_t *c = (vh_ctx_t *)vh_xmalloc(sizeof(vh_ctx_t));
   memset(c, 0, sizeof(*c));
@@ -28,9 +35,6 @@ vh_ctx_t *vh_ctx_new(const char *path, uint64_t seed, int tid) {
   c->rng = seed * 0x9E3779B97F4A7C15ULL + 0x1234567ULL + (uint64_t)tid * 7919;
   c->tid = tid;
   CTX = c;
-#ifdef M4RI_VERIF
-  m4ri_verif_dd = dd_callback;
-#endif
   return c;
 }
 
